@@ -323,3 +323,10 @@ def run(ctx):
              "overwrite a stream that is already marked finished)")
     from rules import round4
     round4.check_final_thread_dir(ctx, "R9.5")
+    ctx.rule("R9.6", "the marker never stands beside less than was flushed because of an unnoticed write fault: a flush "
+             "writes the whole buffer or dies (C10 R10.3), and the relocating copy checks every write and the close of "
+             "the destination (C10 R10.1 / R10.2 instances for move_thread_to_final)")
+    from rules import round5
+    round5.share(ctx, "R9.6", "C10", lambda i_: (i_["rule"] == "R10.3") or
+                 (i_["rule"] in ("R10.1", "R10.2") and "move_thread_to_final" in i_["inst"]), "write-fault:",
+                 "a stream marked finished lacks bytes that were flushed", 6)
